@@ -39,6 +39,9 @@ let ext_d = [| 0L; 0x7FEFFFFFFFFFFFFFL; 0xFFEFFFFFFFFFFFFFL; 1L; 0x000FFFFFFFFFF
 let dbits f = Int64.bits_of_float f
 let explicit : int64 array ref = ref [||]
 
+(* patterns 11/12/13: mixed signs, a unique maximum at `pos` and a unique minimum at pos+1, pos in the first chunk /
+   the middle / the last three elements; 14: sorted with one swap; 15: sorted except that the last element is the smallest *)
+let xpos pat n = let p = (match pat with 11 -> 7 | 12 -> n / 2 | _ -> if n >= 3 then n - 3 else 0) in if p >= n then n - 1 else p
 let gen ty pat n (seed : int64) : int64 array =
   let s = ref seed in
   let sd = Int64.to_int (urem seed 1000L) in
@@ -63,6 +66,15 @@ let gen ty pat n (seed : int64) : int64 array =
         if Int64.to_int (urem r 64L) = 0 then 0x3FF0000000000000L else 0x4000000000000000L
       | 10 -> (* strided two-valued input on which a partition pass leaves both walls in place *)
         if i > 0 && (i mod 40 < 16 || i mod 40 >= 32) then 0x4000000000000000L else 0x3FF0000000000000L
+      | 11 | 12 | 13 ->
+        let pos = xpos pat n in
+        if i = pos then (if Int64.logand seed 1L = 0L then 0x7FF0000000000000L else dbits 1e300)
+        else if i = pos + 1 then (if Int64.logand seed 1L = 1L then 0xFFF0000000000000L else dbits (-1e300))
+        else dbits (float_of_int (Int64.to_int (urem r 2001L) - 1000))
+      | 14 -> let j = (if i = n / 3 then 2 * n / 3 else if i = 2 * n / 3 then n / 3 else i) in
+        Int64.add 0x3FF0000000000000L (Int64.of_int (j * 0x10000000 + sd))
+      | 15 -> let j = (if i = n - 1 then 0 else i + 1) in
+        Int64.add 0x3FF0000000000000L (Int64.of_int (j * 0x10000000 + sd))
       | _ -> !explicit.(i)
     else
       match pat with
@@ -76,6 +88,13 @@ let gen ty pat n (seed : int64) : int64 array =
       | 7 -> urem r 1000003L
       | 9 -> if Int64.to_int (urem r 64L) = 0 then 5L else 9L
       | 10 -> if i > 0 && (i mod 40 < 16 || i mod 40 >= 32) then 2L else 1L
+      | 11 | 12 | 13 ->
+        let pos = xpos pat n in
+        if i = pos then Int64.of_int (1000000 + sd)
+        else if i = pos + 1 then Int64.of_int (- (1000000 + sd))
+        else Int64.of_int (Int64.to_int (urem r 2001L) - 1000)
+      | 14 -> let j = (if i = n / 3 then 2 * n / 3 else if i = 2 * n / 3 then n / 3 else i) in Int64.of_int (j * 7919 + sd)
+      | 15 -> let j = (if i = n - 1 then 0 else i + 1) in Int64.of_int (j * 7919 + sd)
       | _ -> !explicit.(i))
 
 (* ---------- machine operators, written as in the C sources ---------- *)
